@@ -1,3 +1,30 @@
-/- C19 — property theorems (being extended). -/
+/-
+  C19 — generators are pure functions of their parameters and the engine.
+  Thin by nature: in the model a sample *is* a function of (CDF, variate) — `search` has no state —
+  and the CDF is a function of (n, alpha).  What the property adds about the C++ classes is checked by
+  (i) tie G class facts regenerated from the source: `operator()` is `const`; the only static /
+  thread_local / mutable object is the `uniform_real_distribution`; both constructors throw on
+  `max < min`; (ii) the correspondence run: copies, moved-to and equal-parameter instances and threads
+  sharing one const generator produce the sequences the model's function of the recomputed variates
+  predicts.
+-/
 import CppUtil.Model.Zipf
 import CppUtil.Gen.Zipf
+
+namespace CppUtil.Props
+open CppUtil CppUtil.Zipf
+
+/-- tie G: class facts of the current source -/
+theorem c19_class_facts : Gen.zipfCallConst = true ∧ Gen.zipfOnlyDistStatic = true ∧ Gen.zipfCtorChecks = 2 := by
+  decide
+
+/-- two generators with equal tables return equal values for equal variates (no hidden state): stated
+    for completeness — it is congruence -/
+theorem c19_function_of_table_and_variate {α : Type} (cdf₁ cdf₂ : Int → α) (lt : α → α → Bool) (n : Int) (u : α)
+    (h : cdf₁ = cdf₂) : search cdf₁ lt n u = search cdf₂ lt n u := by rw [h]
+
+/-- the table is a function of the parameters only -/
+theorem c19_table_function_of_params {α : Type} (A B : Arith α) (n : Nat) (h : A = B) :
+    exactTable A n = exactTable B n := by rw [h]
+
+end CppUtil.Props
